@@ -6,6 +6,7 @@ import (
 	"crypto"
 	"fmt"
 	"math/big"
+	"strings"
 	"testing"
 
 	"pgregory.net/rapid"
@@ -29,6 +30,9 @@ type sigCase struct {
 	how    string
 	cls    []string
 	rPoint ref.Pt // the R the construction used (when meaningful)
+	// aliasOfX: r is a near-miss alias of x(R) and nothing else is wrong with the tuple; the recoverable
+	// encoding with the overflow bit of the recovery id flipped is then the forgery attempt to try
+	aliasOfX bool
 }
 
 // construct builds a tuple from one of the accept-side constructions and
@@ -169,6 +173,9 @@ func construct(t *rapid.T, friendly bool) sigCase {
 		"-Q", "r=0", "s=0", "r+n", "s+n", "r=n", "s=n", "s=2^256-1", "short-digest", "e+1"}).Draw(t, "edit")
 	if friendly && edit != "high-s-twin" {
 		edit = "none"
+	}
+	if len(c.cls) > 0 && strings.HasPrefix(c.cls[len(c.cls)-1], "r-alias:") && rapid.Bool().Draw(t, "alias-unedited") {
+		edit, c.aliasOfX = "none", true // keep the alias tuple otherwise intact: only the final comparison decides
 	}
 	if !friendly && c.r != nil && new(big.Int).Add(c.r, ref.N).BitLen() <= 256 && rapid.Bool().Draw(t, "force-r+n") {
 		edit = "r+n" // r is tiny (x(R) in [n,p) or a small abscissa), so the alias r+n still fits the 32-byte field
@@ -365,6 +372,9 @@ func propVerifyOpts(t *rapid.T) {
 			RejectMalleable: rapid.Bool().Draw(t, "rm"),
 			SelfVerify:      rapid.Bool().Draw(t, "sv"),
 		}
+		if c.aliasOfX && rapid.Bool().Draw(t, "alias-recoverable") {
+			opts.Encoding = secec.EncodingCompactRecoverable
+		}
 		if friendly {
 			opts.Encoding = secec.SignatureEncoding(rapid.IntRange(0, 2).Draw(t, "fenc"))
 			opts.Hash = gen.Sampled(gen.WideHashChoices).Draw(t, "fhash")
@@ -392,7 +402,10 @@ func propVerifyOpts(t *rapid.T) {
 	var v byte
 	vKind := "n/a"
 	if enc == secec.EncodingCompactRecoverable {
-		vKind = gen.Sampled([]string{"right", "right", "wrong", "+4", "any"}).Draw(t, "vkind")
+		vKind = gen.Sampled([]string{"right", "right", "wrong", "+4", "any", "overflow-bit-flipped"}).Draw(t, "vkind")
+		if c.aliasOfX && rapid.Bool().Draw(t, "alias-ovf") {
+			vKind = "overflow-bit-flipped"
+		}
 		if friendly && rapid.IntRange(0, 3).Draw(t, "fv") != 0 {
 			vKind = "right"
 		}
@@ -413,6 +426,8 @@ func propVerifyOpts(t *rapid.T) {
 		switch vKind {
 		case "right":
 			v = right
+		case "overflow-bit-flipped": // claims x(R) = r + n (or denies it): with an r that is an alias of x(R) this is the forgery attempt
+			v = right ^ 2
 		case "wrong":
 			v = right ^ byte(rapid.IntRange(1, 3).Draw(t, "vx"))
 		case "+4":
